@@ -550,7 +550,7 @@ skip_whitespace_harness!(c10_skip_ws_line_sep_ideographic, " \u{2028}\u{3000}\u{
 // ---------------------------------------------------------------------------
 // C08: integer literals with a radix prefix keep their radix beyond 64 bits.
 // ---------------------------------------------------------------------------
-// @verif props=C08 tier=quick cap=900 group=core fns=Tokenizer::eat_number
+// @verif props=C08 tier=experimental cap=900 group=core fns=Tokenizer::eat_number
 /// The literal `0xD0000000000000000` (ANY non-zero hexadecimal digit D, lower case, followed by 16 zeros, i.e.
 /// D * 2^64 - the smallest hexadecimal literals that no longer fit 64 bits) lexes as the 128-bit integer
 /// D << 64: the wide path parses with the same radix as the narrow one.
@@ -575,6 +575,82 @@ fn c08_hex_literal_above_u64_keeps_radix() {
     kani::cover!(d == b'1');
     core::mem::forget((r, t));
 }
+
+
+// ---------------------------------------------------------------------------
+// C10: raw blocks emit their content verbatim; trim_blocks removes exactly ONE line ending after `{% raw %}`.
+// ---------------------------------------------------------------------------
+macro_rules! raw_block_harness {
+    ($name:ident, $ws_start:expr, $mode:expr) => {
+        #[kani::proof]
+        #[kani::unwind(14)]
+        #[kani::stub(alloc::fmt::format, crate::verif_common::format_stub)]
+        fn $name() {
+            // the tokenizer stands right behind `{% raw %}`; what follows is EVERY raw content of exactly 2
+            // bytes over {LF, CR, space, 'a'} and the closing `{%endraw%}`
+            let mut buf = [0u8; 12];
+            let mut i = 0;
+            while i < 2 {
+                let c: u8 = kani::any();
+                kani::assume(c == b'\n' || c == b'\r' || c == b' ' || c == b'a');
+                buf[i] = c;
+                i += 1;
+            }
+            let tail = b"{%endraw%}";
+            let mut j = 0;
+            while j < 10 {
+                buf[2 + j] = tail[j];
+                j += 1;
+            }
+            let s = unsafe { core::str::from_utf8_unchecked(&buf[..]) };
+            let trim: bool = kani::any();
+            let mut t = tokenizer_on(s, 0, ws_cfg(true, false, trim));
+            let r = t.handle_raw_tag($ws_start);
+            // reference: how many leading bytes of the content are dropped
+            let c = &buf[..2];
+            let mut drop = 0usize;
+            if $mode == 0 {
+                // `{% raw %}`: with trim_blocks exactly one line ending (LF, CRLF or a lone CR), else nothing
+                if trim {
+                    if c[0] == b'\r' {
+                        drop = 1;
+                    }
+                    if drop < 2 && c[drop] == b'\n' {
+                        drop += 1;
+                    }
+                }
+            } else if $mode == 1 {
+                // `{% raw -%}`: all leading whitespace
+                while drop < 2 && c[drop] != b'a' {
+                    drop += 1;
+                }
+            }
+            // `{% raw +%}`: nothing is dropped
+            match r {
+                Ok(ControlFlow::Break((Token::TemplateData(text), _))) => {
+                    assert!(text.len() == 2 - drop);
+                    let tb = text.as_bytes();
+                    let mut k = 0;
+                    while k < tb.len() {
+                        assert!(tb[k] == c[drop + k]);
+                        k += 1;
+                    }
+                }
+                _ => assert!(false),
+            }
+            assert!(t.current_offset == 12);
+            kani::cover!(trim && c[0] == b'\n' && c[1] == b'\n');
+            kani::cover!(!trim && c[0] == b' ');
+            core::mem::forget((r, t));
+        }
+    };
+}
+
+// @verif-block props=C10 tier=quick cap=900 group=core doc=Tokenizer::handle_raw_tag_on_EVERY_raw_content_of_2_bytes_over_{LF,_CR,_space,_'a'}_closed_by_`{%endraw%}`,_trim_blocks_symbolic,_for_the_listed_right-hand_marker_of_`{%_raw_%}`:_the_content_is_emitted_verbatim_except_for_exactly_one_line_ending_(trim_blocks,_no_marker),_all_leading_whitespace_('-')_or_nothing_('+')
+raw_block_harness!(c10_raw_block_default_marker, Whitespace::Default, 0);
+raw_block_harness!(c10_raw_block_minus_marker, Whitespace::Remove, 1);
+raw_block_harness!(c10_raw_block_plus_marker, Whitespace::Preserve, 2);
+// @verif-end
 
 #[cfg(test)]
 mod playback {
